@@ -40,6 +40,11 @@ type Op struct {
 	C  int    `json:"c,omitempty"`
 	K  int    `json:"k,omitempty"`
 	J  int    `json:"j,omitempty"`
+	// F and H: for op "ho" the list function F is called THROUGH the
+	// higher-order function H (mapcar, map-list, map-into, mapcan, reduce,
+	// apply, funcall) instead of directly.
+	F string `json:"f,omitempty"`
+	H string `json:"h,omitempty"`
 }
 
 // Case is a history: Pre builds the pool (constructors, growth by add/push,
@@ -72,6 +77,7 @@ type kind struct {
 	dest   bool // documented destructive on A (nconc: every argument but the last)
 	ext    bool // extension: may only add elements behind the end of sharing lists
 	elem   bool // writes into a sub-list element of A
+	noPair bool // not enumerated by the pair/triple blocks
 	share  int
 	weight int
 }
@@ -81,6 +87,9 @@ type kind struct {
 var kinds = []kind{
 	{name: "list", share: shFresh, weight: 2},
 	{name: "quote", share: shFresh, weight: 1},
+	{name: "rows", share: shFresh, weight: 2, noPair: true},         // a list whose elements are all sub-lists (lengths 0..3)
+	{name: "xrow", share: shFresh, weight: 1, noPair: true},         // (number sub-list): an argument list for apply
+	{name: "ho", nargs: 2, share: shFresh, weight: 9, noPair: true}, // a list function called through a higher-order function
 	{name: "alias", share: shA, weight: 4},
 	{name: "cons", share: shA, weight: 4},
 	{name: "list*", share: shA, weight: 2},
@@ -152,7 +161,7 @@ func init() {
 		}
 		kindOf[k.name] = k
 		totalW += k.weight
-		if k.name != "list" && k.name != "quote" {
+		if k.name != "list" && k.name != "quote" && !k.noPair {
 			pairOps = append(pairOps, k.name)
 		}
 	}
@@ -186,9 +195,9 @@ func tripleBlock(tier string) int {
 
 func nCases(tier string) int {
 	if tier == "thorough" {
-		return pairBlock() + tripleBlock(tier) + thoroughRandom
+		return hoBlock() + pairBlock() + tripleBlock(tier) + thoroughRandom
 	}
-	return pairBlock() + tripleBlock(tier) + quickRandom
+	return hoBlock() + pairBlock() + tripleBlock(tier) + quickRandom
 }
 
 // basePre builds the pool of the exhaustive blocks. la has five elements:
@@ -232,6 +241,10 @@ func mk(name string, t, a, b, c, k int) Op {
 var routes = []string{"", "let", "lambda"}
 
 func gen(r *rand.Rand, i int, tier string) Case {
+	if i < hoBlock() {
+		return hoCase(i)
+	}
+	i -= hoBlock()
 	n := len(pairOps)
 	if i < pairBlock() {
 		combo := pairCombos[i%len(pairCombos)]
@@ -305,10 +318,14 @@ func pickKind(r *rand.Rand) *kind {
 
 func randomCase(r *rand.Rand) Case {
 	var c Case
+	// ptype: what the pool variable holds at first (n: numbers, r: sub-lists, x: (number sub-list), m: mixed)
+	var ptype [nv]byte
 	for v := 0; v < nv; v++ {
+		ptype[v] = 'n'
 		if 0 < v && r.IntN(100) < 40 {
 			// an alias of an earlier variable
 			src := r.IntN(v)
+			ptype[v] = ptype[src]
 			switch r.IntN(6) {
 			case 0, 1:
 				c.Pre = append(c.Pre, Op{Op: "alias", T: v, A: src})
@@ -323,10 +340,22 @@ func randomCase(r *rand.Rand) Case {
 			}
 			continue
 		}
+		if k := r.IntN(100); k < 26 {
+			// material for the higher-order route
+			if k < 21 {
+				c.Pre = append(c.Pre, Op{Op: "rows", T: v, K: 1 + r.IntN(5), J: r.IntN(6)})
+				ptype[v] = 'r'
+			} else {
+				c.Pre = append(c.Pre, Op{Op: "xrow", T: v, J: r.IntN(4)})
+				ptype[v] = 'x'
+			}
+			continue
+		}
 		n := []int{0, 1, 2, 3, 3, 4, 4, 5, 5, 5}[r.IntN(10)]
 		nested := 0
 		if r.IntN(4) == 0 {
 			nested = 1
+			ptype[v] = 'm'
 		}
 		switch k := r.IntN(100); {
 		case k < 25:
@@ -394,8 +423,38 @@ func randomCase(r *rand.Rand) Case {
 		if kd.place {
 			op.A = op.T
 		}
-		if kd.name == "list" || kd.name == "quote" {
+		if kd.name == "list" || kd.name == "quote" || kd.name == "rows" {
 			op.K = r.IntN(7)
+		}
+		if kd.name == "ho" {
+			pair := hoPairs[r.IntN(len(hoPairs))]
+			op.F, op.H = pair[0], pair[1]
+			// prefer variables whose pool value fits the shape of the function
+			pick := func(t byte, cur int) int {
+				var fit []int
+				for v := 0; v < nv; v++ {
+					if ptype[v] == t {
+						fit = append(fit, v)
+					}
+				}
+				if len(fit) == 0 || r.IntN(5) == 0 {
+					return cur
+				}
+				return fit[r.IntN(len(fit))]
+			}
+			switch f := hoFnByName(op.F); {
+			case op.H == "apply" && (f.name == "cons" || f.name == "list*"):
+				op.A = pick('x', op.A)
+			case op.H == "reduce" && f.name == "cons", op.H == "apply" && f.name == "list":
+			case f.shape == "xr" && op.H != "reduce":
+				op.A, op.B = pick('n', op.A), pick('r', op.B)
+			case f.shape == "xx":
+				op.A, op.B = pick('n', op.A), pick('n', op.B)
+			case f.shape == "rr":
+				op.A, op.B = pick('r', op.A), pick('r', op.B)
+			default:
+				op.A = pick('r', op.A)
+			}
 		}
 		c.Ops = append(c.Ops, op)
 	}
@@ -408,10 +467,16 @@ func randomCase(r *rand.Rand) Case {
 
 // ---------------------------------------------------------------- values
 
-// el is one element: a fixnum, or a non-empty one-level sub-list of fixnums.
+// el is one element: a fixnum, or a one-level sub-list of fixnums (sub is
+// non-nil; an empty sub is the element nil). id names the sub-list OBJECT in
+// the reference model: it travels with the element through every reference
+// function, so two occurrences with the same id are the same object by the
+// language rules, two different non-zero ids are different objects even when
+// their contents are equal, and 0 means the identity is not known.
 type el struct {
 	v   int
 	sub []int
+	id  int
 }
 
 type val []el
@@ -437,14 +502,20 @@ func (e el) same(o el) bool {
 // key: the number a sub-list or fixnum sorts by in sort-key.
 func (e el) key() int {
 	if e.sub != nil {
-		return e.sub[0]
+		return e.sub[0] // callers make sure there is no empty sub-list
 	}
 	return e.v
 }
 
+// isCons: a non-empty sub-list.
+func (e el) isCons() bool { return 0 < len(e.sub) }
+
 func (e el) text() string {
 	if e.sub == nil {
 		return strconv.Itoa(e.v)
+	}
+	if len(e.sub) == 0 {
+		return "nil"
 	}
 	var b strings.Builder
 	b.WriteByte('(')
@@ -462,6 +533,9 @@ func (e el) text() string {
 func (e el) form() string {
 	if e.sub == nil {
 		return strconv.Itoa(e.v)
+	}
+	if len(e.sub) == 0 {
+		return "nil"
 	}
 	return "(list " + strings.Trim(e.text(), "()") + ")"
 }
@@ -491,10 +565,30 @@ func (v val) allInts() bool {
 	return true
 }
 
+func (v val) hasNil() bool {
+	for _, e := range v {
+		if e.sub != nil && len(e.sub) == 0 {
+			return true
+		}
+	}
+	return false
+}
+
+// allRows: every element is a sub-list (possibly nil).
+func (v val) allRows() bool {
+	for _, e := range v {
+		if e.sub == nil {
+			return false
+		}
+	}
+	return true
+}
+
+// subs: positions of the non-empty sub-lists.
 func (v val) subs() []int {
 	var at []int
 	for i, e := range v {
-		if e.sub != nil {
+		if e.isCons() {
 			at = append(at, i)
 		}
 	}
@@ -548,8 +642,14 @@ type world struct {
 	uf    []int // union-find parent over sharing classes; index 0 unused
 	step  int
 	next  int // next unused fixnum
-	prog  []string
-	dead  bool // an evaluation failed; the state is no longer meaningful
+	ids   int // last sub-list object id handed out
+	// ent: sub-list objects that may share cons cells with another object by
+	// the language rules (a row made by cons shares the cells of its second
+	// argument, a row made by cdr is part of its argument): positions from
+	// ent[id] on are not the object's own.
+	ent  map[int]int
+	prog []string
+	dead bool // an evaluation failed; the state is no longer meaningful
 	// hidden: operations whose result was seen to occupy the same backing
 	// array as a variable of another sharing class. Used only to NAME the
 	// culprit in a signature; the verdict itself is the observed change.
@@ -659,10 +759,9 @@ func (w *world) observe(i int) (shown string, v val, ok bool) {
 			switch te := e.(type) {
 			case slip.Fixnum:
 				v[k] = el{v: int(te)}
+			case nil:
+				v[k] = el{sub: []int{}}
 			case slip.List:
-				if len(te) == 0 {
-					return shown, nil, false
-				}
 				sub := make([]int, len(te))
 				for j, se := range te {
 					f, isFix := se.(slip.Fixnum)
@@ -681,6 +780,41 @@ func (w *world) observe(i int) (shown string, v val, ok bool) {
 	return shown, nil, false
 }
 
+// recoverIDs gives the sub-lists of a value that had to be re-parsed (a
+// variable changed in a way the reference did not predict, which is allowed
+// for lists sharing cells with a destructively processed one) the id of the
+// object with the same contents in the previous state, when that is unique.
+func (w *world) recoverIDs(v val, before *[nv]vstate, made val) {
+	for k := range v {
+		if !v[k].isCons() {
+			continue
+		}
+		id := 0
+		for i := 0; i <= nv && id != -1; i++ {
+			known := made // the objects the reference says this step created or moved
+			if i < nv {
+				known = before[i].el
+			}
+			for _, o := range known {
+				if o.isCons() && o.same(v[k]) {
+					switch {
+					case o.id == 0 || (id != 0 && id != o.id):
+						id = -1
+					default:
+						id = o.id
+					}
+				}
+				if id == -1 {
+					break
+				}
+			}
+		}
+		if 0 < id {
+			v[k].id = id
+		}
+	}
+}
+
 // planned is what plan() decides for one step.
 type planned struct {
 	src  string
@@ -692,6 +826,10 @@ type planned struct {
 	from []int
 	// element write: every variable is expected to hold all[i] afterwards
 	all *[nv]val
+	// after: model bookkeeping to run once the step has been evaluated
+	after func()
+	// label: name of the operation in signatures and counters (ho: "mapcar fn=cons")
+	label string
 }
 
 // plan resolves an operation against the observed contents and gives the
@@ -707,9 +845,10 @@ func (w *world) plan(op Op, kd *kind) (p planned) {
 	n := len(a)
 	fresh := func() int { w.next++; return w.next }
 	// newEl: the element an operation introduces; sometimes a new sub-list
+	newID := func() int { w.ids++; return w.ids }
 	newEl := func() el {
 		if op.J%5 == 4 {
-			return el{sub: []int{fresh(), fresh()}}
+			return el{sub: []int{fresh(), fresh()}, id: newID()}
 		}
 		return el{v: fresh()}
 	}
@@ -755,7 +894,7 @@ func (w *world) plan(op Op, kd *kind) (p planned) {
 		for j := 0; j < k; j++ {
 			e := el{v: fresh()}
 			if op.J%4 == 1 && j%2 == 1 {
-				e = el{sub: []int{fresh(), fresh()}[:2-j/2%2]}
+				e = el{sub: []int{fresh(), fresh()}[:2-j/2%2], id: newID()}
 			}
 			want = append(want, e)
 			forms = append(forms, e.form())
@@ -765,6 +904,36 @@ func (w *world) plan(op Op, kd *kind) (p planned) {
 			return setq(strings.TrimSpace("(list "+strings.Join(forms, " "))+")", want)
 		}
 		return setq("'("+strings.Join(texts, " ")+")", want)
+	case "rows":
+		// every element a sub-list; the lengths follow one of six patterns
+		lens := [][]int{{1, 1, 1, 1, 1, 1}, {1, 2, 3, 0, 1, 2}, {0, 1, 2, 3, 0, 1}, {2, 2, 2, 2, 2, 2}, {3, 1, 0, 2, 3, 1}, {2, 3, 1, 0, 2, 3}}[op.J%6]
+		k := op.K % 7
+		var want val
+		var forms []string
+		for j := 0; j < k; j++ {
+			e := el{sub: []int{}}
+			for m := 0; m < lens[j%6]; m++ {
+				e.sub = append(e.sub, fresh())
+			}
+			if e.isCons() {
+				e.id = newID()
+			}
+			want = append(want, e)
+			forms = append(forms, e.form())
+		}
+		return setq(strings.TrimSpace("(list "+strings.Join(forms, " "))+")", want)
+	case "xrow":
+		e := el{sub: []int{}}
+		for m := 0; m < op.J%4; m++ {
+			e.sub = append(e.sub, fresh())
+		}
+		if e.isCons() {
+			e.id = newID()
+		}
+		x := el{v: fresh()}
+		return setq("(list "+x.form()+" "+e.form()+")", val{x, e})
+	case "ho":
+		return w.planHO(op, fresh, newID)
 	case "alias":
 		return setq(A, a)
 	case "cons":
@@ -854,11 +1023,26 @@ func (w *world) plan(op Op, kd *kind) (p planned) {
 			return setq(fmt.Sprintf("(%s '%s %s)", op.Op, pred, A), without(func(_ int, e el) bool { return (e.v%2 == 0) == (pred == "evenp") }))
 		}
 		pred := []string{"consp", "numberp"}[op.K%2]
-		return setq(fmt.Sprintf("(%s '%s %s)", op.Op, pred, A), without(func(_ int, e el) bool { return (e.sub != nil) == (pred == "consp") }))
-	case "remove-dup":
+		return setq(fmt.Sprintf("(%s '%s %s)", op.Op, pred, A), without(func(_ int, e el) bool {
+			if pred == "consp" {
+				return e.isCons()
+			}
+			return e.sub == nil
+		}))
+	case "remove-dup", "delete-dup":
+		nils := 0
+		for _, e := range a {
+			if e.sub != nil && len(e.sub) == 0 {
+				nils++
+			}
+		}
+		if 1 < nils {
+			return skip("avoided:remove-duplicates-of-several-nils")
+		}
+		if op.Op == "delete-dup" {
+			return setq("(delete-duplicates "+A+")", without(laterDup))
+		}
 		return setq("(remove-duplicates "+A+")", without(laterDup))
-	case "delete-dup":
-		return setq("(delete-duplicates "+A+")", without(laterDup))
 	case "member":
 		it := item()
 		for i, e := range a {
@@ -933,9 +1117,14 @@ func (w *world) plan(op Op, kd *kind) (p planned) {
 		}
 		return planned{src: fmt.Sprintf("(setf (elt %s %d) %s)", T, k, e.form()), want: want, dargs: []int{op.A}}
 	case "setf-caar", "setf-sub-nth", "rplaca-sub":
-		at := a.subs()
+		var at []int
+		for _, i := range a.subs() {
+			if a[i].id != 0 {
+				at = append(at, i)
+			}
+		}
 		if len(at) == 0 {
-			return skip("no sub-list element")
+			return skip("no sub-list element of known identity")
 		}
 		for i := 0; i < nv; i++ {
 			if !w.v[i].ok {
@@ -948,17 +1137,23 @@ func (w *world) plan(op Op, kd *kind) (p planned) {
 		if op.Op == "setf-sub-nth" {
 			j = op.J % len(old.sub)
 		}
-		nw := el{sub: append([]int{}, old.sub...)}
+		if from, has := w.ent[old.id]; has && from <= j {
+			return skip("the cell may be shared with another object by the language rules")
+		}
+		nw := el{sub: append([]int{}, old.sub...), id: old.id}
 		x := fresh()
 		nw.sub[j] = x
-		// by the language rules every occurrence of this sub-list is the same
-		// object (numbers are unique and nothing copies an element)
+		// every occurrence of this object changes; an occurrence of another
+		// object with equal contents (a copy made by another call) must not
 		var all [nv]val
 		for i := 0; i < nv; i++ {
 			all[i] = cat(w.v[i].el)
 			for m := range all[i] {
-				if all[i][m].same(old) {
+				switch {
+				case all[i][m].id == old.id:
 					all[i][m] = nw
+				case all[i][m].id == 0 && all[i][m].same(old):
+					return skip("an occurrence of unknown identity has the same contents")
 				}
 			}
 		}
@@ -1040,6 +1235,9 @@ func (w *world) plan(op Op, kd *kind) (p planned) {
 		e := newEl()
 		return planned{src: fmt.Sprintf("(addf %s %s)", T, e.form()), want: cat(a, val{e}), dargs: []int{op.A}}
 	case "sort<", "sort>", "sort-default", "sort-key", "stable-sort":
+		if a.hasNil() {
+			return skip("nil has no sort key")
+		}
 		want := cat(a)
 		desc := op.Op == "sort>" || (op.Op == "sort-key" && a.allInts())
 		sort.SliceStable(want, func(i, j int) bool {
@@ -1105,6 +1303,10 @@ func (w *world) stepOp(op Op, phase string) {
 		return
 	}
 	src, want := p.src, p.want
+	label := sigName(op.Op)
+	if p.label != "" {
+		label = p.label
+	}
 	if kd.dest && p.dargs == nil && (op.Op == "delete" || op.Op == "delete-if" || op.Op == "delete-dup" || op.Op == "nreverse" || op.Op == "nbutlast") {
 		p.dargs = []int{op.A}
 	}
@@ -1116,13 +1318,17 @@ func (w *world) stepOp(op Op, phase string) {
 	} else {
 		_, err = sl.Eval(w.scope, src)
 	}
-	x.Cover(phase + ":" + op.Op)
+	if p.label != "" {
+		x.Cover(phase + ":" + op.Op + ":" + p.label)
+	} else {
+		x.Cover(phase + ":" + op.Op)
+	}
 	if err != nil {
 		k := "error"
 		if err.Internal {
 			k = "internal-fault"
 		}
-		x.Fail(k+" op="+sigName(op.Op), "%s => %s (reference result %s)\nhistory: %s", src, err, render(want), strings.Join(w.prog, " "))
+		x.Fail(k+" op="+label, "%s => %s (reference result %s)\nhistory: %s", src, err, render(want), strings.Join(w.prog, " "))
 		w.dead = true
 		return
 	}
@@ -1136,7 +1342,37 @@ func (w *world) stepOp(op Op, phase string) {
 		snap[i] = w.v[i].shown
 	}
 	w.trace = append(w.trace, snap)
-	w.opAt = append(w.opAt, op.Op)
+	w.opAt = append(w.opAt, label)
+	// the destructively processed classes (empty: nothing may change)
+	dclass := map[int]bool{}
+	if 0 < len(p.dargs) {
+		for _, i := range p.dargs {
+			if c := w.find(before[i].class); c != 0 {
+				dclass[c] = true
+			}
+		}
+	}
+	// carry the object ids of the reference model over to the observed values
+	for i := 0; i < nv; i++ {
+		exp := before[i].el
+		switch {
+		case p.all != nil:
+			exp = p.all[i]
+		case i == op.T:
+			exp = want
+		}
+		// a list sharing cells with a destructively processed one may hold other
+		// objects than before even when it prints the same
+		exempt := i != op.T && dclass[w.find(before[i].class)]
+		if w.v[i].ok && !exempt && w.v[i].shown == render(exp) {
+			w.v[i].el = cat(exp)
+		} else if w.v[i].ok {
+			w.recoverIDs(w.v[i].el, &before, want)
+		}
+	}
+	if p.after != nil {
+		defer p.after()
+	}
 	hist := func() string { return strings.Join(w.prog, " ") }
 
 	if p.all != nil {
@@ -1153,7 +1389,7 @@ func (w *world) stepOp(op Op, phase string) {
 					}
 				}
 			case i == op.T:
-				x.Fail("value op="+sigName(op.Op), "%s left %s as %s, the reference result is %s\nhistory: %s", src, names[i], w.v[i].shown, exp, hist())
+				x.Fail("value op="+label, "%s left %s as %s, the reference result is %s\nhistory: %s", src, names[i], w.v[i].shown, exp, hist())
 			case w.v[i].shown == before[i].shown:
 				// the younger of the two lists was made from the older one
 				via := before[i].via
@@ -1163,20 +1399,10 @@ func (w *world) stepOp(op Op, phase string) {
 				x.Fail("element-copied via="+sigName(via), "%s is not visible through %s, which holds the same sub-list object by the language rules: %s stayed %s, expected %s (%s holds a result of %s, %s a result of %s)\nhistory: %s",
 					src, names[i], names[i], w.v[i].shown, exp, names[op.T], before[op.T].via, names[i], before[i].via, hist())
 			default:
-				x.Fail("element-frame op="+sigName(op.Op), "%s changed %s from %s to %s, expected %s\nhistory: %s", src, names[i], before[i].shown, w.v[i].shown, exp, hist())
+				x.Fail("element-frame op="+label, "%s changed %s from %s to %s, expected %s\nhistory: %s", src, names[i], before[i].shown, w.v[i].shown, exp, hist())
 			}
 		}
 		return // the top-level sharing model is untouched
-	}
-
-	// the destructively processed classes (empty: nothing may change)
-	dclass := map[int]bool{}
-	if kd.dest {
-		for _, i := range p.dargs {
-			if c := w.find(before[i].class); c != 0 {
-				dclass[c] = true
-			}
-		}
 	}
 
 	// (1) value oracle on the target
@@ -1192,7 +1418,7 @@ func (w *world) stepOp(op Op, phase string) {
 		case (op.Op == "revappend" || op.Op == "nreconc") && len(before[op.B].el) == 0:
 			detail = " tail=nil"
 		}
-		x.Fail("value op="+sigName(op.Op)+detail, "%s bound %s to %s, the reference result from the observed arguments is %s\nhistory: %s",
+		x.Fail("value op="+label+detail, "%s bound %s to %s, the reference result from the observed arguments is %s\nhistory: %s",
 			src, names[op.T], got, render(want), hist())
 	} else {
 		x.Cover("value-agreed")
@@ -1208,7 +1434,7 @@ func (w *world) stepOp(op Op, phase string) {
 		case len(dclass) == 0:
 			x.Cover("frame:non-destructive-checked")
 			if changed {
-				x.Fail("frame op="+sigName(op.Op), "%s is not destructive (or had nothing to destroy) but changed %s from %s to %s\nhistory: %s",
+				x.Fail("frame op="+label, "%s is not destructive (or had nothing to destroy) but changed %s from %s to %s\nhistory: %s",
 					src, names[i], before[i].shown, w.v[i].shown, hist())
 			}
 		case !shares:
@@ -1240,7 +1466,7 @@ func (w *world) stepOp(op Op, phase string) {
 		case kd.ext:
 			x.Cover("frame:extension-sharing-checked")
 			if changed && !(before[i].ok && w.v[i].ok && isPrefix(before[i].el, w.v[i].el)) {
-				x.Fail("overwrite op="+sigName(op.Op), "%s extends a list but overwrote elements reachable from %s: %s became %s\nhistory: %s",
+				x.Fail("overwrite op="+label, "%s extends a list but overwrote elements reachable from %s: %s became %s\nhistory: %s",
 					src, names[i], before[i].shown, w.v[i].shown, hist())
 			}
 		default:
@@ -1258,7 +1484,7 @@ func (w *world) stepOp(op Op, phase string) {
 		if w.find(res.class) == 0 {
 			res.class = 0
 			if 0 < len(want) {
-				res.class, res.via, res.birth = w.newClass(), op.Op, w.step
+				res.class, res.via, res.birth = w.newClass(), label, w.step
 			}
 		}
 	}
@@ -1275,7 +1501,7 @@ func (w *world) stepOp(op Op, phase string) {
 		}
 		inherit(m)
 	case kd.share == shFresh:
-		res.class, res.via, res.birth = 0, op.Op, w.step
+		res.class, res.via, res.birth = 0, label, w.step
 		if 0 < len(want) {
 			res.class = w.newClass()
 		}
@@ -1298,7 +1524,7 @@ func (w *world) stepOp(op Op, phase string) {
 				continue
 			}
 			if l2, h2, ok2 := w.span(i); ok2 && lo < h2 && l2 < hi {
-				w.hidden = append(w.hidden, hiddenAlias{c1: res.class, c2: w.v[i].class, op: op.Op})
+				w.hidden = append(w.hidden, hiddenAlias{c1: res.class, c2: w.v[i].class, op: label})
 				x.Cover("hidden-backing-array-sharing-seen")
 			}
 		}
@@ -1375,7 +1601,7 @@ func (w *world) reroute(route string) {
 }
 
 func exec(x *fw.Ctx, c Case) {
-	w := &world{x: x, scope: slip.NewScope(), mode: c.Mode, uf: []int{0}, next: 100}
+	w := &world{x: x, scope: slip.NewScope(), mode: c.Mode, uf: []int{0}, next: 100, ent: map[int]int{}}
 	for i := 0; i < nv; i++ {
 		w.scope.Let(slip.Symbol(names[i]), nil)
 		w.v[i] = vstate{shown: "nil", ok: true, via: "nil"}
@@ -1435,11 +1661,12 @@ func init() {
 		ID: "C06",
 		Rule: "history = pool construction (list / quoted literal, elements fixnums or one-level sub-lists; grown by add or push, optionally shortened again; result of remove/delete/remove-if/mapcar/append/revappend/remove-duplicates; " +
 			"or alias / cdr / nthcdr / last / member of an earlier variable) followed by <= 6 operations over 4 named lists; " +
+			"block 0 = higher-order route: every generated (list function, higher-order function) combination (19 functions called through mapcar / map / map-into / mapcan / reduce / apply / funcall: 84 combinations) x 6 sub-list length patterns (lengths 0..3) x 6 follow-ups (none; rows of the result written into; an argument row written into; a second call whose rows are written into; destructive top-level processing) = 3 024 cases; " +
 			"block 1 = every ordered pair of the 55 operations x 6 aliasing patterns x 8 (pool, selector) combinations over 5 pools {exact capacity, grown by add, sub-list elements, built by remove, built by append} (exhaustive, every seed); " +
 			"block 2 = ordered triples: quick the seed-independent third with (p+2q+3s) mod 3 = 0 (pattern and pool rotate), thorough every triple x 2 patterns x 2 pools; " +
 			"then seeded random histories (any variable as target and as any argument). " +
 			"distinct = distinct program text; non-trivial = at least one operation ran and at least two variables hold non-empty lists at the end. " +
-			"never generated: subseq of an empty list (signals a type-error, C14's concern), circular structures, sub-lists as variable values; nothing else is avoided",
+			"never generated: subseq of an empty list (type-error) and remove-duplicates of a list holding both nil and the empty tail of a one-element list (they are not equal in slip) - C14/C16's concern; circular structures, sub-lists as variable values, map-into into a list sharing cells with its arguments, mapc (its results are discarded); nothing else is avoided",
 		N:     nCases,
 		Gen:   gen,
 		Exec:  exec,
@@ -1448,7 +1675,7 @@ func init() {
 		Assumptions: []string{
 			"the value oracle is computed from the observed contents of the arguments, the frame rule from a sharing model (union-find over allocation classes) that over-approximates cons-cell sharing under ANSI CL rules",
 			"remove/remove-if/remove-duplicates results are treated as fresh (the property's 'independent of its arguments'); CL would also allow sharing",
-			"elements are fixnums or one-level sub-lists of fixnums; every number is unique when introduced, so two occurrences of a sub-list with the same contents are the same object by the language rules (no operation copies an element); dotted lists are not generated",
+			"elements are fixnums or one-level sub-lists of fixnums (or nil); every sub-list object carries an id in the reference model that travels through the reference functions, so rows made by different calls are different objects even when their contents are equal; where the identity of an occurrence is not known, or a cell may be shared by the language rules (a row made by cons shares its second argument), writes into it are not generated; dotted lists are not generated",
 			"variables are re-read through Scope.Get and rendered by the harness printer",
 			"route cases: the same program text is re-run as one let/lambda form and a Go builtin (c06-snap) renders the variables after every operation; both runs must agree",
 		},
